@@ -43,13 +43,13 @@ class Gen6(ac.Gen):
             q = self.fresh("q")
             out += [f"{ind}{q} = scf.if {self.r.choice(['%c0', '%c1'])} -> (i32) {{", f"{ind}  scf.yield {self.r.choice(vals)} : i32",
                     f"{ind}}} else {{", f"{ind}  scf.yield {self.r.choice(vals)} : i32", f"{ind}}}"]
-            vals = vals + [q, q, q]
+            vals += [q, q, q]
         # a small chain of arithmetic feeding the setup
         for _ in range(self.r.randint(0, 2)):
             v = self.fresh()
             a, b = self.r.choice(vals), self.r.choice(vals)
             out.append(f"{ind}{v} = arith.{self.r.choice(['addi', 'muli', 'subi'])} {a}, {b} : i32")
-            vals = vals + [v, v]
+            vals += [v, v]
         return out + super().setup_launch(vals, ind, cur)
 
 
@@ -122,9 +122,15 @@ class C06(Prop):
             mp = model_path(path)
             moves.append({"step": k, "path": mp[:-1] + [start], "flags": flags,
                           "ok_order": seg_after[:cut] == sorted(seg_after[:cut]) and seg_after[cut:] == sorted(seg_after[cut:])})
+        # loop-level steps: anchored at the loop, j = index of the matched setup in its body
+        loops = []
+        for k, (name, path, before, after, *rest) in enumerate(log):
+            if name == "LoopLevelSetupAwaitOverlapPattern":
+                mp = model_path(path)
+                loops.append({"step": k, "path": mp[:-2], "j": mp[-1]})
         kinds = sorted({n.replace("SetupAwaitOverlapPattern", "") for (n, *_r) in log})
         return {"progs": progs, "n_steps": len(log), "kinds": kinds, "d26_steps": loop_steps_with_other_setups(log),
-                "moves": moves}
+                "moves": moves, "loops": loops}
 
     def requests(self, case, impl_out):
         if case["kind"] == "d26_literal":
@@ -137,6 +143,9 @@ class C06(Prop):
                 continue
             before = impl_out["progs"][m["step"]]["prog"]   # progs[0] = input of the pass, progs[k+1] = after step k
             reqs.append({"fn": "c06.move", "args": {"path": m["path"], "flags": m["flags"], "body": before["body"]}})
+        for m in impl_out.get("loops", []):
+            before = impl_out["progs"][m["step"]]["prog"]
+            reqs.append({"fn": "c06.loop", "args": {"path": m["path"], "j": m["j"], "fresh": before["nvars"] + 1000, "body": before["body"]}})
         return reqs
 
     def model(self, case, answers, impl_out):
@@ -170,6 +179,17 @@ class C06(Prop):
             real_after = impl_out["progs"][m["step"] + 1]["prog"]["body"]
             if ac.canon_ast(a["ok"]["after"]) != ac.canon_ast(real_after):
                 return {"model_error": f"certified block move of step {m['step']} does not reproduce the real rewrite", "move": m}
+        # loop-level steps: the model rule must reproduce the real rewrite
+        for m in impl_out.get("loops", []):
+            a = answers[k]
+            k += 1
+            if "err" in a:
+                return {"model_error": a["err"]}
+            if a["ok"]["after"] is None:
+                return {"model_error": f"loop-level overlap step {m['step']}: the model rule is not applicable at {m['path']} j={m['j']}", "loop": m}
+            real_after = impl_out["progs"][m["step"] + 1]["prog"]["body"]
+            if ac.canon_ast(a["ok"]["after"]) != ac.canon_ast(real_after):
+                return {"model_error": f"loop-level overlap step {m['step']}: the model rule does not reproduce the real rewrite", "loop": m}
         return dict(impl_out, progs=progs)
 
     def oracle(self, case, impl_out):
